@@ -45,11 +45,20 @@ func (c11) Gen(r *rand.Rand, tier string, run int) *core.Case {
 	c.Net.LateWrite = br.IntN(2) == 0
 	c.Net.CloseErr = []int{0, 0, 100}[br.IntN(3)]
 	c.Params["blocking_cb"] = br.IntN(2)
+	if block%5 == 4 {
+		// a block without transport faults: the application closes the
+		// client's endpoint itself, at a drawn moment
+		c.Params["app_close"] = 1
+	}
 	c.Params["scenario"] = block % 4
 	c.Params["tape_seed"] = int(br.Uint64() >> 33)
 	c.Params["block"] = block
 	c.Batch = fmt.Sprintf("scenario-%c", 'a'+block%4)
-	if j >= 635 {
+	if c.Params["app_close"] == 1 {
+		c.Params["fault_op"] = -2
+		c.Params["app_close_after"] = j % 160 // scheduling decisions before the Close
+		c.Batch += "-app-close"
+	} else if j >= 635 {
 		c.Params["fault_op"] = -1 // fault-free run of this block
 	} else {
 		k := j / len(c11kinds)
@@ -77,6 +86,7 @@ type c11state struct {
 	earlyReply  int
 	connectFail error
 	callsDone   chan struct{}
+	appClose    int64 // event sequence number at which the application closed the endpoint
 }
 
 func (c11) Run(c *core.Case, env *core.Env) {
@@ -113,6 +123,20 @@ func (c11) Run(c *core.Case, env *core.Env) {
 	st.mu.Lock()
 	st.regClient = zzsim.Seq()
 	st.mu.Unlock()
+	if c.P("app_close", 0) == 1 {
+		after := c.P("app_close_after", 0)
+		go func() {
+			for j := 0; j < after; j++ {
+				zzsim.Yield("h.app-close-delay")
+			}
+			seq := zzsim.Seq()
+			st.mu.Lock()
+			st.appClose = seq
+			st.mu.Unlock()
+			zzsim.Event("application closes the endpoint")
+			cl.Channel().EndPoint().Close()
+		}()
+	}
 	h = env.Invoke(0, "proxy", "")
 	p, err := ProbeProxy(cl, w.ServiceID, 1)
 	env.Return(h, "", err)
@@ -224,7 +248,21 @@ func (c11) Check(c *core.Case, env *core.Env, res zzsim.Result, v *core.Verdict)
 			firedKind = k
 		}
 	}
+	st.mu.Lock()
+	appClose := st.appClose
+	st.mu.Unlock()
+	firstLoss := env.NW.FirstFaultSeq()
+	if appClose != 0 {
+		fired++
+		firedKind = "app-close"
+		if firstLoss == 0 || appClose < firstLoss {
+			firstLoss = appClose
+		}
+	}
 	where := "no fault"
+	if appClose != 0 {
+		where = fmt.Sprintf("the application closed the client's endpoint at %d", appClose)
+	}
 	if len(c.Plan) > 0 {
 		where = fmt.Sprintf("%s at I/O operation %d of the client connection", c.Plan[0].Kind, c.Plan[0].Op)
 		if fired == 0 {
@@ -267,7 +305,7 @@ func (c11) Check(c *core.Case, env *core.Env, res zzsim.Result, v *core.Verdict)
 				bad("error-without-fault", "%s failed although the connection is healthy: %s", h, h.Err)
 			}
 		}
-		if ff := env.NW.FirstFaultSeq(); strings.HasPrefix(h.Kind, "late") && ff != 0 && ff < h.Call && h.OK {
+		if ff := firstLoss; strings.HasPrefix(h.Kind, "late") && ff != 0 && ff < h.Call && h.OK {
 			bad("late-call-succeeded", "%s: a call issued after the connection was lost succeeded: %s", where, h)
 		}
 	}
@@ -275,7 +313,7 @@ func (c11) Check(c *core.Case, env *core.Env, res zzsim.Result, v *core.Verdict)
 		env.Probe("fault-fired-" + firedKind)
 		st.mu.Lock()
 		// "registered beforehand": before the fault fired
-		ff := env.NW.FirstFaultSeq()
+		ff := firstLoss
 		if st.regClient != 0 && st.regClient < ff && st.discClient != 1 {
 			bad("disconnect-callback/client", "%s: the client's disconnect callback (registered before the fault) ran %d times", where, st.discClient)
 		}
